@@ -144,8 +144,15 @@ def build_case(case, U, M):
                           module=U.Length(1, 'mm'), face_width=U.Length(5, 'mm'),
                           elastic_modulus=q(U.Stress, 'E') if 'E' in p else None)
     if k == 'HelicalGear':
+        if p.get('bare'):
+            # without the optional data (module, face width)
+            return M.HelicalGear(name='g', n_teeth=p.get('z', 20),
+                                 inertia_moment=J,
+                                 helix_angle=q(U.Angle, 'beta'))
         return M.HelicalGear(name='g', n_teeth=p.get('z', 20), inertia_moment=J,
                              helix_angle=q(U.Angle, 'beta'),
+                             module=U.Length(1, 'mm'),
+                             face_width=U.Length(5, 'mm'),
                              elastic_modulus=q(U.Stress, 'E') if 'E' in p else None)
     if k == 'WormGear':
         return M.WormGear(name='w', n_starts=p.get('starts', 1),
